@@ -10,6 +10,7 @@ import numpy as np
 
 from .. import core, material as M, tlc, obs
 from ..kern_util import call_guard, cmp_vec, live_object_dev, entry_variants
+from .C13 import stage_minimiser_dev
 
 
 def eval_form(quad, nfft):
@@ -121,9 +122,17 @@ def obs_events(chk):
             cplx = bool(rng.randint(2))
         m = int(rng.randint(2, min(N // 2, 16) + 1))
         t = np.arange(N)
-        x = rng.randn(N) + np.cos(0.8 * t)
-        if cplx:
-            x = x * np.exp(0.3j * t) + 1j * rng.randn(N)
+        predictable = rep % 5 == 3 and N >= 16
+        if predictable:
+            # one tone 60 dB above the noise: reflection coefficients of modulus close to 1 (low orders only, see C13)
+            m = min(m, 4)
+            x = np.exp(1j * (0.9 * t + 0.3)) + 1e-3 * (rng.randn(N) + 1j * rng.randn(N)) if cplx else np.cos(0.9 * t + 0.3) + 1e-3 * rng.randn(N)
+        else:
+            x = rng.randn(N) + np.cos(0.8 * t)
+            if cplx:
+                x = x * np.exp(0.3j * t) + 1j * rng.randn(N)
+        # the clauses are relative: the amplitude of the data is free (quantisation steps of an ADC, micro-volts, ...)
+        x = x * (1.0, 1e-4, 1e5)[rep % 3]
         nfft = int(rng.choice([2 * m, 2 * m + 1, 64, 65]))
         nfft = max(nfft, 2 * m)
         T = float(rng.choice([1.0, 2.0, 0.25, 1000.0]))
@@ -147,10 +156,12 @@ def obs_events(chk):
             ev['positive'] = bool(np.isrealobj(psd) and np.all(psd > 0))
             ev['ar_dev'] = obs.q(max(abs(A[0] - 1), np.max(np.abs(A[1:] - ab)) if m > 1 else 0))
             ev['k_dev'] = obs.q(np.max(np.abs(np.asarray(k) - kb)) if m > 1 else 0)
+            # ... and they are Burg's by definition: each one minimises the forward+backward error of its stage
+            ev['min_dev'] = obs.q(stage_minimiser_dev(x, np.asarray(k))) if (m <= 5 or not predictable) else 0
             ev['len_ok'] = bool(len(psd) == nfft and len(A) == m and len(k) == m - 1)
             ev['cond_ok'] = bool(np.linalg.cond(R) < 1e8)
         else:
-            ev.update(psd_dev=0, positive=False, ar_dev=0, k_dev=0, len_ok=False, cond_ok=True)
+            ev.update(psd_dev=0, positive=False, ar_dev=0, k_dev=0, min_dev=0, len_ok=False, cond_ok=True)
         batch.add(ev, {'N': N, 'm': m, 'cplx': cplx, 'nfft': nfft, 'T': T, 'seed': chk.seed, 'rep': rep})
     obs.validate(chk, batch, 'obs-large-N', lambda ev, cl: 'C16:OBS:%s:%s' % (cl, 'complex' if ev['cplx'] else 'real'),
                  lambda ev, cl: 'minvar N=%d m=%d NFFT=%d: clause "%s" fails: %s' % (ev['N'], ev['m'], ev['nfft'], cl, ev))
